@@ -67,18 +67,15 @@ class Box:
         new_end_coord = np.subtract(new_end_coord, concat_offsets)
 
         if split_offset is not None:
-            for idx in range(len(split_offset)):
-                new_start_coord[idx] += split_offset[idx]
-                new_end_coord[idx] += split_offset[idx]
+            # if the current op was combined with a split slice read then its ifm is the output of the split op (which
+            # is defined by the read offset and the read shape). Padding and skirt were calculated for that slice, so
+            # the box is calculated within the slice and moved by the read offset at the end
+            ifm_shape = split_shape
 
         if npu_block_type in (NpuBlockType.ConvolutionMxN, NpuBlockType.VectorProduct, NpuBlockType.ReduceSum):
             # these types of operations do a "dot product" or sum over the entire IFM
-            if split_offset is None:
-                new_start_coord[-1] = 0
-                new_end_coord[-1] = ifm_shape.depth
-            else:
-                new_start_coord[-1] = split_offset[-1]
-                new_end_coord[-1] = new_start_coord[-1] + split_shape[-1]
+            new_start_coord[-1] = 0
+            new_end_coord[-1] = ifm_shape.depth
 
         if len(new_end_coord) >= 1:
             new_end_coord[-1] = min(new_end_coord[-1], ifm_shape.depth)
@@ -93,14 +90,8 @@ class Box:
         if strides is not None and skirt is not None:
             if len(new_start_coord) >= 2:
                 stride = strides[2]
-                # if the current op was combined with a split slice read then the valid ifm range is given by the output
-                # of the split op (which is defined by the read offset and the read shape)
-                if split_offset is None:
-                    new_start_coord[-2] = max(new_start_coord[-2] * stride - skirt[1], 0)
-                    new_end_coord[-2] = min(new_end_coord[-2] * stride + skirt[3], ifm_shape.width)
-                else:
-                    new_start_coord[-2] = max(new_start_coord[-2] * stride - skirt[1], split_offset[-2])
-                    new_end_coord[-2] = min(new_end_coord[-2] * stride + skirt[3], split_offset[-2] + split_shape[-2])
+                new_start_coord[-2] = max(new_start_coord[-2] * stride - skirt[1], 0)
+                new_end_coord[-2] = min(new_end_coord[-2] * stride + skirt[3], ifm_shape.width)
 
             if len(new_start_coord) >= 3:
                 stride = strides[1]
@@ -138,6 +129,10 @@ class Box:
             one = Shape4D(1, 1, 1, 1)
             new_start_coord = Box.wrap(new_start_coord, tmp)
             new_end_coord = Box.wrap(Shape4D(list(new_end_coord)) - one, tmp) + one
+
+        if split_offset is not None:
+            new_start_coord = np.add(list(new_start_coord), list(split_offset))
+            new_end_coord = np.add(list(new_end_coord), list(split_offset))
 
         return Box(new_start_coord, new_end_coord), pad_top, pad_bottom
 
